@@ -240,6 +240,9 @@ Proof.
   apply map_ext. intros x'. apply ft_core_opp.
 Qed.
 
+Example ft_odd_nonvacuous : omitted klorch = false /\ omitted kplain = false /\ map Ropp [1; 2] = [-1; -2].
+Proof. repeat split. Qed.
+
 (* 5. linear in the data *)
 Lemma vmul_lin a b (L Y1 Y2 : list R) :
   vmul L (map2 (lin a b) Y1 Y2) = map2 (lin a b) (vmul L Y1) (vmul L Y2).
@@ -435,7 +438,7 @@ Proof.
            (fun j => Rtrigo_def.sin ((x0 + INR j * h) * (PI / xm)) / (x0 + INR j * h) / (PI / xm))); auto.
   - unfold fb_yw. rewrite ugrid_last. fold xm. unfold ugrid. rewrite map_map. numR. reflexivity.
   - rewrite ugrid_vmax by exact Hh. fold xm. unfold lorch_factor, ugrid. rewrite map_map.
-    apply map_ext_in. intros j Hj. unfold lorch_weight. numR.
+    apply map_ext_in. intros j Hj. unfold lorch_weight, neqb. numR.
     pose proof PI_RGT_0 as Hpi. pose proof (pos_INR j) as Hj0.
     assert (Hxj : 0 < x0 + INR j * h) by nra.
     assert (Hne : PI / xm * (x0 + INR j * h) <> 0).
@@ -496,4 +499,9 @@ Proof. intros. apply fortran_g_from_core; auto. apply fortran_eq_pystog_lorch; a
 Example fortran_g_eq_pystog_nonvacuous :
   (2 <= 3)%nat /\ 1 <> 0 /\ length [1; 2; 3] = 3%nat /\ lorch kplain = false /\ omitted kplain = false /\
   0 < rho kplain /\ 0 < 1.
+Proof. repeat split; try lia; cbn; lra. Qed.
+
+Example fortran_g_eq_pystog_lorch_nonvacuous :
+  (2 <= 3)%nat /\ 0 < 1 /\ 0 < 1 /\ length [1; 2; 3] = 3%nat /\ lorch klorch = true /\ omitted klorch = false /\
+  0 < rho klorch /\ 0 < 1.
 Proof. repeat split; try lia; cbn; lra. Qed.
